@@ -123,6 +123,22 @@ SCENARIOS = {
                      {"do": "await", "thread": "A", "point": "update.afterread"}, {"do": "run", "line": 'set c0 k exp=0 raw=0 v={"s":2}'},
                      {"do": "release", "thread": "A"}, {"do": "join", "thread": "A"}],
              observe=["rb c0 k " + N]),
+        dict(name="update-of-a-deleted-key-vs-add", setup=kv_setup(["delete c0 k", "clock t=4194304"]),
+             threads={"A": 'update c0 k exp=0 cb=setifnil:{"u":1}'},
+             script=[{"do": "park", "thread": "A", "point": "update.afterread"}, {"do": "spawn", "thread": "A", "line": 'update c0 k exp=0 cb=setifnil:{"u":1}'},
+                     {"do": "await", "thread": "A", "point": "update.afterread"}, {"do": "run", "line": 'add c0 k exp=0 json=1 v={"added":1}'},
+                     {"do": "release", "thread": "A"}, {"do": "join", "thread": "A"}],
+             observe=["rb c0 k " + N]),
+        dict(name="subdoc-write-vs-removal-of-another-property", setup=kv_setup(), threads={"A": "wsd c0 k path=a cas=0 v=100"},
+             script=[{"do": "park", "thread": "A", "point": "subdoc.afterread"}, {"do": "spawn", "thread": "A", "line": "wsd c0 k path=a cas=0 v=100"},
+                     {"do": "await", "thread": "A", "point": "subdoc.afterread"}, {"do": "run", "line": "wsd c0 k path=b cas=0 v="},
+                     {"do": "release", "thread": "A"}, {"do": "join", "thread": "A"}],
+             observe=["rb c0 k " + N]),
+        dict(name="subdoc-insert-vs-removal-of-that-property", setup=kv_setup(), threads={"A": "sdi c0 k path=b cas=0 v=7"},
+             script=[{"do": "park", "thread": "A", "point": "subdoc.afterread"}, {"do": "spawn", "thread": "A", "line": "sdi c0 k path=b cas=0 v=7"},
+                     {"do": "await", "thread": "A", "point": "subdoc.afterread"}, {"do": "run", "line": "wsd c0 k path=b cas=0 v="},
+                     {"do": "release", "thread": "A"}, {"do": "join", "thread": "A"}],
+             observe=["rb c0 k " + N]),
         dict(name="incr-vs-incr", setup=["clock t=2097152", "set c0 n exp=0 raw=0 v=10", "clock t=3145728"],
              threads={"A": "incr c0 n amt=5 def=0 exp=0", "B": "incr c0 n amt=7 def=0 exp=0"},
              script=[{"do": "park", "thread": "A", "point": "txn.begin"}, {"do": "spawn", "thread": "A", "line": "incr c0 n amt=5 def=0 exp=0"},
@@ -242,3 +258,7 @@ def run_property(pid, log):
             viols.append({"kind": "schedule", "signature": "%s/sched/%s" % (pid, sc["name"]), "msg": "schedule %s: %s" % (sc["name"], detail.get("why")),
                           "ops": [], "scenario": sc, "detail": detail})
     return {"schedules": cov, "schedules_run": len(cov), "exhaustive_schedules": False}, viols
+
+
+# C18 (sub-document writes preserve the other properties, also against a concurrent writer) reuses the sub-document schedules of C03
+SCENARIOS["C18"] = [sc for sc in SCENARIOS["C03"] if sc["name"].startswith("subdoc")]
